@@ -1394,12 +1394,29 @@ func newToDateEval(lhs Evaler) *toDateEval {
 	return &toDateEval{lhs: lhs}
 }
 
+// millisSinceMidnight returns the number of milliseconds between ms and the
+// start of its day, always in [0, MillisPerDay). Go's % truncates toward zero
+// and so yields a negative remainder for instants before the epoch; Cedar
+// rounds toward negative infinity.
+func millisSinceMidnight(ms int64) int64 {
+	rem := ms % consts.MillisPerDay
+	if rem < 0 {
+		rem += consts.MillisPerDay
+	}
+	return rem
+}
+
 func (n *toDateEval) Eval(env Env) (types.Value, error) {
 	lhs, err := evalDatetime(n.lhs, env)
 	if err != nil {
 		return zeroValue(), err
 	}
-	return types.NewDatetimeFromMillis(lhs.Milliseconds() - (lhs.Milliseconds() % consts.MillisPerDay)), nil
+	ms := lhs.Milliseconds()
+	res, ok := checkedSubI64(types.Long(ms), types.Long(millisSinceMidnight(ms)))
+	if !ok {
+		return zeroValue(), fmt.Errorf("%w while attempting to compute toDate", errOverflow)
+	}
+	return types.NewDatetimeFromMillis(int64(res)), nil
 }
 
 type toTimeEval struct {
@@ -1415,7 +1432,7 @@ func (n *toTimeEval) Eval(env Env) (types.Value, error) {
 	if err != nil {
 		return zeroValue(), err
 	}
-	return types.NewDurationFromMillis(lhs.Milliseconds() % consts.MillisPerDay), nil
+	return types.NewDurationFromMillis(millisSinceMidnight(lhs.Milliseconds())), nil
 }
 
 type toMillisecondsEval struct {
